@@ -8,7 +8,7 @@
    iter_index t it = number of items before position it (= distance from begin).
    All statements hold for every 1 <= maxCapacity <= 255, every capacityStep, blockCount, search strategy. *)
 From Coq Require Import ZArith List.
-From C02 Require Import BTreeModel BTreeParams BTreeBase SplitSeg IndexTable BTreeSearch BTreeIter BTreeAdd BTreeRemove BTreeCtx BTreeRemove2 BTreeTrack BTreeRemove3 BTreeRange BTreeTop BTreeHist BTreeRemoveTop BTreeRangeTop BTreeHist2 BTreeMerge BTreeFast BTreeFast2 BTreeInsRange BTreeHist3 NodeOps NodeScript BTreeDecide BTreeSplitGen GenPrimsC02 Gen_TreeFacts BTreeFastDecide BTreeSearchGen ProtoSyntaxC02 Gen_TreeProto ProtoSemC02 ProtoProofsC02 ProtoIterC02 ProtoMoveC02.
+From C02 Require Import BTreeModel BTreeParams BTreeBase SplitSeg IndexTable BTreeSearch BTreeIter BTreeAdd BTreeRemove BTreeCtx BTreeRemove2 BTreeTrack BTreeRemove3 BTreeRange BTreeTop BTreeHist BTreeRemoveTop BTreeRangeTop BTreeHist2 BTreeMerge BTreeFast BTreeFast2 BTreeInsRange BTreeHist3 NodeOps NodeScript BTreeDecide BTreeSplitGen GenPrimsC02 Gen_TreeFacts BTreeFastDecide BTreeSearchGen ProtoSyntaxC02 Gen_TreeProto ProtoSemC02 ProtoProofsC02 ProtoIterC02 ProtoMoveC02 ProtoIncrC02.
 From Coq Require String.
 From MomoCommon Require Import GenPrelude.
 Import ListNotations.
@@ -714,14 +714,15 @@ Theorem C02_descent_is_generated :
 Proof. exact descent_is_find_first. Qed.
 Print Assumptions C02_descent_is_generated.
 
-(* PARTIAL: the real operator++ / operator-- (with pvMoveIf / pvMove), interpreted with the same semantics, agree with the hand
-   model's next / prev at EVERY position of three concrete trees of height 2, two of which contain an empty leaf that pvMove has to
-   climb over.  The general equality is not proved yet. *)
-Theorem C02_iterator_steps_agree_on_examples_partial :
+(* PARTIAL, and since the last round only needed for operator--: the real operator++ / operator-- (with pvMoveIf / pvMove), interpreted
+   with the same semantics, agree with the hand model's next / prev at EVERY position of three concrete trees of height 2, two of which
+   contain an empty leaf that pvMove has to climb over.  For operator++ the general theorem is C02_iterator_increment_is_generated below;
+   for operator-- the general equality is not proved. *)
+Theorem C02_iterator_decrement_agrees_on_examples_partial :
   andb (andb (steps_agree ex_t0) (steps_agree ex_t1)) (steps_agree ex_t2) = true /\
   existsb (fun x => match x with (true, 0%nat, _) => true | _ => false end) (shape_of ex_t1) = true /\ cnt ex_t0 = 10%nat.
 Proof. exact iter_steps_agree_on_examples. Qed.
-Print Assumptions C02_iterator_steps_agree_on_examples_partial.
+Print Assumptions C02_iterator_decrement_agrees_on_examples_partial.
 
 (* ===== growth round 6: half of the general iterator theorem; asserts kept as obligations =====
    The hand model's `next` (top-down recursion) is proved equal to a bottom-up "zipper" description that has exactly the structure of the
@@ -764,6 +765,20 @@ Theorem C02_pvMove_loop_is_bottom_up_climb :
       e' k_mNode = Some (VPtr (Some (fst (up r (rev rq))))) /\ e' k_mItemIndex = Some (VNum (Z.of_nat (snd (up r (rev rq))))).
 Proof. exact move_loop_is_up. Qed.
 Print Assumptions C02_pvMove_loop_is_bottom_up_climb.
+
+(* last round: the GENERAL theorem for operator++.  The real TreeSetConstIterator::operator++ - its dumped statement tree, interpreted;
+   pvMoveIf, pvMove and VersionKeeper::Check are interpreted by running their own dumped bodies (incr_calls); MOMO_CHECK / MOMO_ASSERT are
+   obligations - started at ANY valid position (p, j) of ANY well-formed tree, passes every obligation, returns, and leaves the iterator
+   at the hand model's next (p, j): leaf step / leftmost leaf of child j+1, then climb while the node is the last child of its parent. *)
+Theorem C02_iterator_increment_is_generated :
+  forall (maxCap : nat) (r : node) (d : nat) (p : list nat) (m : node) (j : nat) (e : env) (k : nat),
+    shape maxCap d r -> node_at p r = Some m -> (j < n_count m)%nat ->
+    e k_mNode = Some (VPtr (Some p)) -> e k_mItemIndex = Some (VNum (Z.of_nat j)) ->
+    let nx := next {| root := Some r; cnt := 0 |} (p, j) in
+    exists e', ProtoSemC02.exec false (fun _ : Z => false) r (incr_calls r (13 + (k + d))) (16 + (d + k)) e iter_incr = RReturn VUnit e' /\
+      e' k_mNode = Some (VPtr (Some (fst nx))) /\ e' k_mItemIndex = Some (VNum (Z.of_nat (snd nx))).
+Proof. exact incr_is_next. Qed.
+Print Assumptions C02_iterator_increment_is_generated.
 
 (* non-vacuity: a concrete reachable state (maxCapacity 2, ten insertions with duplicates) has height 2 *)
 Theorem C02_nonvacuous_example :
